@@ -110,6 +110,30 @@ fn check_range(rep: &Report, f: i64, l: i64, s: i64) {
             Err(_) => if !known(rep, len_overflows(f, l, s)) { rep.violation("range iterator panics during the iteration", d("size_hint", json!({}))); },
         }
     }
+    // every consuming method an iterator may specialise agrees with walking the elements one by one, from every position
+    if want_len <= 64 {
+        let all = ref_iter(f, l, s, 65);
+        let r3 = catch_unwind(AssertUnwindSafe(|| {
+            let mut bad: Vec<String> = vec![];
+            for skip in 0..=all.len() {
+                let rest = &all[skip..];
+                let fresh = || { let mut it = r.into_iter(); for _ in 0..skip { it.next(); } it };
+                if fresh().count() != rest.len() { bad.push(format!("count after {} elements", skip)); }
+                if fresh().last() != rest.last().copied() { bad.push(format!("last after {} elements: {:?}", skip, fresh().last())); }
+                if fresh().min() != rest.iter().min().copied() || fresh().max() != rest.iter().max().copied() { bad.push(format!("min/max after {} elements", skip)); }
+                for n in 0..=rest.len() { let mut it = fresh(); if it.nth(n) != rest.get(n).copied() || it.next() != rest.get(n + 1).copied() { bad.push(format!("nth({}) after {} elements", n, skip)); break; } }
+                if fresh().fold(0i128, |a, x| a + x as i128) != rest.iter().map(|x| *x as i128).sum::<i128>() { bad.push(format!("fold after {} elements", skip)); }
+                if fresh().collect::<Vec<i64>>() != rest { bad.push(format!("collect after {} elements", skip)); }
+                if bad.len() > 3 { break; }
+            }
+            bad
+        }));
+        match r3 {
+            Ok(b) if b.is_empty() => {}
+            Ok(b) => if !known(rep, len_overflows(f, l, s)) { rep.violation("a consuming method of the range iterator disagrees with stepping through it", d("iterator methods", json!({"disagreements": b}))); },
+            Err(_) => if !known(rep, len_overflows(f, l, s)) { rep.violation("range iterator panics in a consuming method", d("iterator methods", json!({}))); },
+        }
+    }
     // conversion there and back, also over the wire
     let t: OwnedTerm = r.into();
     if ElixirRange::from_term(&t) != Some(r) { rep.violation("range does not convert back from its term", d("from_term", json!({}))); }
@@ -412,9 +436,11 @@ fn builders_and_proplists(rep: &Report) {
     // maps of <= 2 entries over keys of every kind: to proplist and back
     let mut keys: Vec<OwnedTerm> = vec![atom("a"), atom("b"), atom("c")];
     keys.extend(other_keys.iter().cloned());
-    for ka in &keys { for va in [1i64, 2] { for kb in &keys { for vb in [1i64, 2] {
+    // values: integers, the atoms a proplist treats specially (true, false, undefined), and containers
+    let vals: Vec<OwnedTerm> = vec![int(1), int(2), atom("true"), atom("false"), atom("undefined"), OwnedTerm::Nil, OwnedTerm::Tuple(vec![atom("a"), int(1)])];
+    for ka in &keys { for va in &vals { for kb in &keys { for vb in &vals {
         rep.add("evaluations", 1);
-        let m = map_of(vec![(ka.clone(), int(va)), (kb.clone(), int(vb))]);
+        let m = map_of(vec![(ka.clone(), va.clone()), (kb.clone(), vb.clone())]);
         let back = m.map_to_proplist().and_then(|p| p.proplist_to_map());
         if back.as_ref().ok() != Some(&m) { rep.violation("map -> proplist -> map is not the identity", json!({"map": crate::denote::denote(&m).short()})); }
         // and the same after the proplist has been through the wire encoding
